@@ -305,7 +305,11 @@ def _arr_eq(a, b):
         if _REGIME[0] == "float32":
             # the class may compute in double precision and keep or narrow the result: values are
             # compared to single-precision accuracy (dtype width is not part of the property)
-            return bool(np.allclose(a.astype(float), b.astype(float), rtol=4e-6, atol=1e-6, equal_nan=True))
+            # ... and a result beyond the single-precision range is +-inf on one side and a finite
+            # double on the other (x ** 7 ** 7): both are clipped to the float32 range first
+            F = float(np.finfo(np.float32).max)
+            return bool(np.allclose(np.clip(a.astype(float), -F, F), np.clip(b.astype(float), -F, F),
+                                    rtol=4e-6, atol=1e-6, equal_nan=True))
         return bool(np.all((a == b) | (np.isnan(a.astype(float)) & np.isnan(b.astype(float)))))
 
 
